@@ -334,6 +334,7 @@ impl<'tcx> Cx<'tcx> {
         let name = match &suffix { Some(sf) => format!("{}::{}", qpath(tcx, did), sf), None => qpath(tcx, did) };
         // call-graph facts of a promoted constant belong to the function it was promoted from
         let ename = qpath(tcx, did);
+        const_refs(tcx, body, &ename, edges);
         let kind = tcx.def_kind(did);
         let promoted = suffix.is_some();
         let mut hdr = format!(
@@ -602,6 +603,7 @@ impl<'tcx> Cx<'tcx> {
         let tcx = self.tcx;
         let env = TypingEnv::post_analysis(tcx, did);
         let name = qpath(tcx, did);
+        const_refs(tcx, body, &name, edges);
         for data in body.basic_blocks.iter() {
             for st in &data.statements {
                 if let StatementKind::Assign(b) = &st.kind {
@@ -708,6 +710,33 @@ impl<'tcx> Cx<'tcx> {
 // easier to analyse before the state-machine transform (awaits are `Yield`s, locals stay locals),
 // so the provider of `mir_drops_elaborated_and_const_checked` is wrapped: it runs the original
 // provider and keeps a clone of the body of every coroutine.
+/// references from a body to const items and statics (so that "what does this function reach" sees the
+/// pattern constructors behind `thread_local!` / `lazy_static!` constants)
+struct ConstRefs<'a, 'tcx> {
+    tcx: TyCtxt<'tcx>,
+    name: &'a str,
+    edges: &'a mut String,
+}
+
+impl<'a, 'tcx> rustc_middle::mir::visit::Visitor<'tcx> for ConstRefs<'a, 'tcx> {
+    fn visit_const_operand(&mut self, c: &ConstOperand<'tcx>, _loc: Location) {
+        if let Const::Unevaluated(uv, _) = c.const_ {
+            if uv.promoted.is_none() {
+                let _ = writeln!(self.edges, "C\t{}\t{}", self.name, qpath(self.tcx, uv.def));
+            }
+        }
+        if let Some(sd) = c.check_static_ptr(self.tcx) {
+            let _ = writeln!(self.edges, "C\t{}\t{}", self.name, qpath(self.tcx, sd));
+        }
+    }
+}
+
+fn const_refs<'tcx>(tcx: TyCtxt<'tcx>, body: &Body<'tcx>, name: &str, edges: &mut String) {
+    use rustc_middle::mir::visit::Visitor;
+    let mut v = ConstRefs { tcx, name, edges };
+    v.visit_body(body);
+}
+
 use std::cell::RefCell;
 use rustc_hir::def_id::LocalDefId;
 use rustc_data_structures::steal::Steal;
@@ -831,7 +860,7 @@ impl rustc_driver::Callbacks for Cb {
                     }
                     continue;
                 }
-                DefKind::Const { .. } | DefKind::AssocConst { .. } => {
+                DefKind::Const { .. } | DefKind::AssocConst { .. } | DefKind::InlineConst => {
                     // constants may hold function pointers / closures: their bodies are extra roots
                     let r = std::panic::catch_unwind(std::panic::AssertUnwindSafe(|| {
                         let b = tcx.mir_for_ctfe(did);
